@@ -1,6 +1,7 @@
 package main
 
 import (
+	"encoding/json"
 	"bytes"
 	"fmt"
 	"go/ast"
@@ -53,6 +54,7 @@ type Program struct {
 	lemmas     []*Lemma
 	summaries  map[*ssa.Function]summary
 	disabledAuto map[string]bool
+	errHandled map[string]map[string]string
 	extraFrameHeap map[string]bool
 	mu         sync.Mutex
 	cmu        sync.RWMutex
@@ -107,7 +109,13 @@ func (P *Program) contractFor(fn *ssa.Function) *Contract {
 	if fn == nil {
 		return nil
 	}
-	return P.getContract(P.relName(fn))
+	if c := P.getContract(P.relName(fn)); c != nil {
+		return c
+	}
+	if fn.Pkg == nil || !P.isYq(fn.Pkg.Pkg.Path()) {
+		return P.getContract(fn.String()) // extern contracts are keyed by the full name
+	}
+	return nil
 }
 
 func (P *Program) getContract(key string) *Contract {
@@ -191,7 +199,11 @@ func loadProgram(repo, verif string) (*Program, error) {
 				}
 				for _, c := range cs {
 					key := c.FuncName
-					if !strings.HasPrefix(key, "invoke ") && !strings.HasPrefix(key, "functype ") {
+					if strings.HasPrefix(key, "extern ") {
+						key = strings.TrimSpace(strings.TrimPrefix(key, "extern "))
+						c.Flags["trusted"] = true
+						c.Flags["extern"] = true
+					} else if !strings.HasPrefix(key, "invoke ") && !strings.HasPrefix(key, "functype ") {
 						key = pkgShort(p.PkgPath) + c.FuncName
 					}
 					if P.getContract(key) != nil {
@@ -207,6 +219,21 @@ func loadProgram(repo, verif string) (*Program, error) {
 		"strcmp": {[]string{"String", "String"}, "Int"}, "tdiv": {[]string{"Int", "Int"}, "Int"}, "tmod": {[]string{"Int", "Int"}, "Int"},
 		"wrapS64": {[]string{"Int"}, "Int"}, "rnd": {[]string{"Int"}, "Real"}, "elemOf": {[]string{"Int", "Int"}, "Int"}, "elList": {[]string{"Int"}, "Int"}, "elIdx": {[]string{"Int"}, "Int"}} {
 		P.specFuncs[n] = sg
+	}
+	P.errHandled = map[string]map[string]string{}
+	if data, err := os.ReadFile(filepath.Join(verif, "tables", "errprop_handled.json")); err == nil {
+		var t struct {
+			Handled   map[string]map[string]string `json:"handled"`
+			NeverFail []string                     `json:"never_fail"`
+		}
+		if json.Unmarshal(data, &t) == nil {
+			P.errHandled = t.Handled
+			nf := map[string]string{}
+			for _, n := range t.NeverFail {
+				nf[n] = "documented to always return a nil error"
+			}
+			P.errHandled["*"] = nf
+		}
 	}
 	if err := P.loadSpecs(filepath.Join(verif, "spec")); err != nil {
 		return P, err
